@@ -23,7 +23,9 @@ import (
 	"fmt"
 	"hash/fnv"
 	"os"
+	"sort"
 	"runtime"
+	"runtime/pprof"
 	"strings"
 	"sync"
 	"syscall"
@@ -55,8 +57,16 @@ func (e elem) String() string { return e.T + e.P + e.Q }
 type hcase struct {
 	el      []elem
 	sep     string
-	raw     string // used when el == nil
+	seps    []string // per gap, overrides sep (only used while simplifying a violation)
+	raw     string   // used when el == nil
 	present bool
+}
+
+func (h hcase) gap(i int) string { // separator before element i (i >= 1)
+	if h.seps != nil {
+		return h.seps[i-1]
+	}
+	return h.sep
 }
 
 func (h hcase) text() string {
@@ -66,7 +76,7 @@ func (h hcase) text() string {
 	var b strings.Builder
 	for i, e := range h.el {
 		if i > 0 {
-			b.WriteString(h.sep)
+			b.WriteString(h.gap(i))
 		}
 		b.WriteString(e.T)
 		b.WriteString(e.P)
@@ -216,12 +226,22 @@ func (w *worker) acc(c fiber.Ctx, i int) {
 		}
 	}
 	if w.repeat {
+		// two identical calls in one handler; the second is the observed answer, the
+		// first is kept (in aux) when it differs
+		var first, second string
 		switch w.mode {
 		case mAccepts:
-			c.Accepts(l...)
+			first = c.Accepts(l...)
+			second = c.Accepts(l...)
 		case mLanguages:
-			c.AcceptsLanguages(l...)
+			first = c.AcceptsLanguages(l...)
+			second = c.AcceptsLanguages(l...)
 		}
+		w.res[i] = second
+		if first != second {
+			w.aux[i] = "repeat-first:" + first
+		}
+		return
 	}
 	switch w.mode {
 	case mAccepts:
@@ -387,6 +407,27 @@ func classify(got string, refList []string, mask uint8, judged bool, pan, aux st
 	return "got-wrong-offer", pos
 }
 
+// verdict is classify, except for the "second call in one handler" families: those
+// report only a second answer that is wrong although the first answer was right
+// (everything else is the business of the plain family and would only be a duplicate).
+func verdict(f *family, got string, refList []string, mask uint8, judged bool, pan, aux string) (string, int) {
+	if !f.repeat {
+		return classify(got, refList, mask, judged, pan, aux)
+	}
+	if pan != "" {
+		return "panic", -1
+	}
+	first, differs := strings.CutPrefix(aux, "repeat-first:")
+	k2, pos := classify(got, refList, mask, judged, "", "")
+	if !differs || k2 == "" || k2 == "result-not-an-offer" {
+		return "", pos
+	}
+	if k1, _ := classify(first, refList, mask, judged, "", ""); k1 != "" {
+		return "", pos
+	}
+	return k2, pos
+}
+
 func maskText(mask uint8, refList []string) []string {
 	var out []string
 	for k, o := range refList {
@@ -427,7 +468,7 @@ func (w *worker) single(f *family, hc hcase, offers []string) (kind, got string,
 			judged = false
 		}
 	}
-	kind, _ = classify(w.oneRes[0], refList, mask, judged, w.onePan[0], w.oneAux[0])
+	kind, _ = verdict(f, w.oneRes[0], refList, mask, judged, w.onePan[0], w.oneAux[0])
 	got = w.oneRes[0]
 	if w.onePan[0] != "" {
 		got = "panic: " + w.onePan[0]
@@ -518,7 +559,7 @@ func (w *worker) judge(l *core.Local, f *family, hc hcase, st *stats) {
 				judged = false // the statement does not say what AutoFormat sends when nothing is acceptable
 			}
 		}
-		kind, pos := classify(res[li], refList[:len(rl)], mask, judged, pan[li], aux[li])
+		kind, pos := verdict(f, res[li], refList[:len(rl)], mask, judged, pan[li], aux[li])
 		st.evals++
 		switch {
 		case !judged:
@@ -571,32 +612,63 @@ func (w *worker) judge(l *core.Local, f *family, hc hcase, st *stats) {
 
 func (w *worker) handleBad(l *core.Local, f *family, hc hcase, st *stats) {
 	n := len(f.slists)
-	bad := append([]bool(nil), w.bad[:n]...)
-	reds := hc.reductions()
+	// candidates: violating lists none of whose one-offer-shorter sublists violates
+	var cand []int
 	for li := 0; li < n; li++ {
-		if !bad[li] {
+		if !w.bad[li] {
 			continue
 		}
 		st.viol++
 		minimal := true
 		for _, s := range f.sub[li] {
-			if bad[s] {
+			if w.bad[s] {
 				minimal = false
 				break
 			}
 		}
 		if minimal {
-			for _, r := range reds {
-				if k, _, _ := w.single(f, r, f.slists[li]); k != "" {
-					minimal = false
-					break
+			cand = append(cand, li)
+		} else {
+			st.nonminimal++
+		}
+	}
+	// ... and that stop violating when any one range (byte) is removed
+	var refList [4]string
+	for _, red := range hc.reductions() {
+		if len(cand) == 0 {
+			break
+		}
+		sl := make([][]string, len(cand))
+		for i, li := range cand {
+			sl[i] = f.slists[li]
+		}
+		res, pan, aux := make([]string, len(cand)), make([]string, len(cand)), make([]string, len(cand))
+		hdr := red.text()
+		w.call(f, hdr, red.present, sl, res, pan, aux)
+		v := refJudge(hdr, red.present, f.media, f.roff, f.offers)
+		keep := cand[:0]
+		for i, li := range cand {
+			rl := f.rlists[li]
+			for k, o := range rl {
+				refList[k] = f.offers[o]
+			}
+			var mask uint8 = 0xff
+			judged := v.valid
+			if judged {
+				mask, _ = v.mask(rl)
+				if f.mode == mAuto && mask&maskNone != 0 {
+					judged = false
 				}
 			}
+			if kind, _ := verdict(f, res[i], refList[:len(rl)], mask, judged, pan[i], aux[i]); kind != "" {
+				st.nonminimal++
+			} else {
+				keep = append(keep, li)
+			}
 		}
-		if !minimal {
-			st.nonminimal++
-			continue
-		}
+		cand = keep
+	}
+	for _, li := range cand {
 		w.report(l, f, hc, f.slists[li])
 	}
 }
@@ -617,11 +689,35 @@ func offerMime(o string) (mime, params string, ext bool) {
 	return o, params, false
 }
 
+var famAcceptsPlain = &family{name: "Accepts", mode: mAccepts, header: "Accept", media: true}
+
 func (w *worker) report(l *core.Local, f *family, hc hcase, offers []string) {
+	if f.mode == mFormat || f.mode == mAuto {
+		// Format / AutoFormat dispatch on Accepts(types...): when Accepts itself gives the
+		// same wrong answer for the same header and types, the case belongs to Accepts
+		// (whose enumeration contains it) and is not reported a second time.
+		var types []string
+		for _, o := range offers {
+			if o != "default" {
+				types = append(types, o)
+			}
+		}
+		_, gotF, _ := w.single(f, hc, offers)
+		if len(types) > 0 {
+			if kindA, gotA, _ := w.single(famAcceptsPlain, hc, types); kindA != "" && gotA == gotF {
+				l.Add("violations_of_"+f.name+"_attributed_to_Accepts", 1)
+				return
+			}
+		}
+	}
 	orig := map[string]any{"function": f.name, "header": hc.text(), "header_present": hc.present, "offers": offers}
 	offers = append([]string(nil), offers...)
 	if hc.el != nil {
 		hc.el = append([]elem(nil), hc.el...)
+		hc.seps = make([]string, len(hc.el)-1)
+		for g := range hc.seps {
+			hc.seps[g] = hc.sep
+		}
 	}
 	still := func(h hcase, o []string) bool { k, _, _ := w.single(f, h, o); return k != "" }
 	for changed := true; changed; {
@@ -643,14 +739,40 @@ func (w *worker) report(l *core.Local, f *family, hc hcase, offers []string) {
 			try(k, elem{e.T, "", e.Q})
 			e = hc.el[k]
 			try(k, elem{e.T, e.P, ""})
+			// canonical spelling of the same meaning: ";q=<value>", lower-case names, unquoted tokens
+			e = hc.el[k]
+			if eq := strings.IndexByte(e.Q, '='); eq >= 0 {
+				v := e.Q[eq+1:]
+				if i := strings.IndexByte(v, ';'); i >= 0 {
+					v = v[:i]
+				}
+				try(k, elem{e.T, e.P, ";q=" + v})
+			}
+			// a range that only has to be there: one that accepts nothing
+			if len(hc.el) > 1 {
+				if f.media {
+					try(k, elem{"x-none/x-none", "", ""})
+				} else {
+					try(k, elem{"x-none", "", ""})
+				}
+			}
+			e = hc.el[k]
+			try(k, elem{e.T, strings.ToLower(e.P), e.Q})
+			e = hc.el[k]
+			if strings.Contains(e.P, `"`) && !strings.ContainsAny(e.P, ", \\") {
+				try(k, elem{e.T, strings.ReplaceAll(e.P, `"`, ""), e.Q})
+			}
 		}
-		if len(hc.el) > 1 && hc.sep != "," {
-			old := hc.sep
-			hc.sep = ","
+		for g := range hc.seps {
+			if hc.seps[g] == "," {
+				continue
+			}
+			old := hc.seps[g]
+			hc.seps[g] = ","
 			if still(hc, offers) {
 				changed = true
 			} else {
-				hc.sep = old
+				hc.seps[g] = old
 			}
 		}
 		if f.media {
@@ -731,6 +853,11 @@ func signature(f *family, kind string, hc hcase, offers []string, pan string) st
 		}
 		kind = "panic(" + msg + ")"
 	}
+	if hc.present && hc.el != nil && kind != "result-not-an-offer" && !strings.HasPrefix(kind, "panic") {
+		if feat := syntaxFeatures(hc); len(feat) > 0 {
+			return fmt.Sprintf("%s misjudges a header with {%s}", f.name, strings.Join(feat, "; "))
+		}
+	}
 	tn, sn := map[string]string{}, map[string]string{}
 	ren := func(m string) string {
 		if !f.media {
@@ -768,23 +895,77 @@ func signature(f *family, kind string, hc hcase, offers []string, pan string) st
 		}
 		hs = "ranges=[" + strings.Join(rs, " | ") + "]"
 		if len(hc.el) > 1 {
-			hs += fmt.Sprintf(" sep=%q", hc.sep)
+			hs += " sep=\",\""
 		}
 	}
-	var os []string
+	var ofs []string
 	for _, o := range offers {
 		if o == "default" || !f.media {
-			os = append(os, o)
+			ofs = append(ofs, o)
 			continue
 		}
 		m, p, ext := offerMime(o)
 		if ext {
-			os = append(os, "ext("+ren(m)+")"+p)
+			ofs = append(ofs, "ext("+ren(m)+")"+p)
 		} else {
-			os = append(os, ren(m)+p)
+			ofs = append(ofs, ren(m)+p)
 		}
 	}
-	return fmt.Sprintf("%s %s %s offers=[%s]", f.name, kind, hs, strings.Join(os, " | "))
+	return fmt.Sprintf("%s %s %s offers=[%s]", f.name, kind, hs, strings.Join(ofs, " | "))
+}
+
+// qCategory abstracts the value of a q-form: ";q=0", ";q=<v>", "; q=<v>", ";q=<v>;ext=1", ";Q=<v>".
+func qCategory(q string) string {
+	if q == "" {
+		return ""
+	}
+	eq := strings.IndexByte(q, '=')
+	rest := q[eq+1:]
+	tail := ""
+	if i := strings.IndexByte(rest, ';'); i >= 0 {
+		rest, tail = rest[:i], rest[i:]
+	}
+	if v, ok := parseQ(rest); ok && v == 0 {
+		return q[:eq+1] + "0" + tail
+	}
+	return q[:eq+1] + "<v>" + tail
+}
+
+// syntaxFeatures lists the non-canonical spellings left in a simplified minimal case
+// (everything the simplification could not replace by the canonical spelling without
+// losing the disagreement): separators other than ",", together with what they follow,
+// q-forms other than ";q=<v>", quoted parameter values, upper-case parameter names.
+func syntaxFeatures(hc hcase) []string {
+	set := map[string]bool{}
+	for i, e := range hc.el {
+		if i+1 < len(hc.el) {
+			if sp := hc.gap(i + 1); sp != "," {
+				tail := "a bare range"
+				switch {
+				case e.Q != "":
+					tail = "q-form " + qCategory(e.Q)
+				case e.P != "":
+					tail = "a parameter"
+				}
+				set[fmt.Sprintf("separator %q after %s", sp, tail)] = true
+			}
+		}
+		if c := qCategory(e.Q); c != "" && c != ";q=0" && c != ";q=<v>" {
+			set["q-form "+c] = true
+		}
+		if strings.Contains(e.P, `"`) {
+			set["quoted parameter value"] = true
+		}
+		if e.P != strings.ToLower(e.P) {
+			set["upper-case parameter name"] = true
+		}
+	}
+	var out []string
+	for k := range set {
+		out = append(out, k)
+	}
+	sort.Strings(out)
+	return out
 }
 
 // ---------------------------------------------------------------------------
@@ -808,6 +989,8 @@ func (p *wpool) get() *worker {
 func (p *wpool) put(w *worker) { p.mu.Lock(); p.free = append(p.free, w); p.mu.Unlock() }
 
 var workers wpool
+
+var stopProfile = func() {}
 
 // skip is a debugging aid only (VERIF_ONLY=media,tokens runs just those phases; a run
 // restricted this way reports a cap and is never exhaustive).
@@ -842,6 +1025,10 @@ func enumerate(r *core.Run, tag string, f *family, alpha []elem, minN, maxN int,
 		items += N * N
 	}
 	r.Parallel(items, func(it int, l *core.Local) {
+		if r.Expired() {
+			r.Cap("wall-clock budget exhausted in phase " + tag)
+			return
+		}
 		w := workers.get()
 		defer workers.put(w)
 		st := &stats{f: f, tag: tag}
@@ -1125,6 +1312,12 @@ func main() {
 	selfTest()
 	quick := r.Quick()
 	t0 := time.Now()
+	if pf := os.Getenv("VERIF_CPUPROFILE"); pf != "" && !r.IsWorker() {
+		if fh, err := os.Create(pf); err == nil {
+			_ = pprof.StartCPUProfile(fh)
+			stopProfile = pprof.StopCPUProfile
+		}
+	}
 	if os.Getenv("VERIF_ONLY") != "" {
 		r.Cap("debug run restricted by VERIF_ONLY=" + os.Getenv("VERIF_ONLY"))
 	}
@@ -1177,32 +1370,45 @@ func main() {
 	phase("pool")
 
 	// 2. media ranges
+	otherSeps := separators[1:]
+	a16 := product([]string{"*/*", "text/*", "text/html", "text/plain"}, []string{""}, []string{"", ";q=0.5", ";q=0"})
+	a16 = append(a16, elem{"text/html", ";level=1", ""}, elem{"text/html", ";level=1", ";q=0.5"}, elem{"text/html", "", "; q=0.5"}, elem{"text/html", "", ";Q=0.5"})
 	if quick {
-		enumerate(r, "media", famA, a60, 1, 3, separators)
-		bounds["media"] = "Accept: <=3 ranges over 60-range alphabet x 3 separators x all ordered lists of <=3 of 11 offers"
+		enumerate(r, "media", famA, a60, 1, 2, separators)
+		enumerate(r, "media", famA2, a60, 3, 3, separators[:1])
+		enumerate(r, "media_sep", famA2, a16, 3, 3, otherSeps)
+		bounds["media"] = fmt.Sprintf("Accept: <=2 ranges over the 60-range alphabet x 3 separators x all ordered lists of <=3 of 11 offers; 3 ranges over the same alphabet joined by ',' "+
+			"(and over a %d-range sub-alphabet joined by ', ' and ' , ') x ordered lists of <=2 offers", len(a16))
 	} else {
-		enumerate(r, "media", famA, a240, 1, 3, []string{","})
-		enumerate(r, "media_sep", famA, a60, 2, 3, []string{", ", " , "})
+		enumerate(r, "media", famA, a60, 1, 3, separators[:1])
+		enumerate(r, "media_sep", famA, a60, 2, 3, otherSeps)
+		enumerate(r, "media240", famA, a240, 1, 2, separators)
+		enumerate(r, "media240", famA2, a240, 3, 3, separators[:1])
 		a4 := product(mediaTypes[:5], []string{"", ";level=1"}, []string{"", ";q=0.5", ";q=0"})
 		a4 = append(a4, elem{"a/b", ";a=1;b=2", ""}, elem{"text/html", "", "; q=0.5"}, elem{"*/*", "", ";q=0.123"})
-		enumerate(r, "media4", famA, a4, 4, 4, []string{","})
-		bounds["media"] = fmt.Sprintf("Accept: <=3 ranges over the full 240-range alphabet (sep ','), <=3 ranges over the 60-range alphabet with separators ', ' and ' , ', exactly 4 ranges over a %d-range alphabet; x all ordered lists of <=3 of 11 offers", len(a4))
+		enumerate(r, "media4", famA, a4, 4, 4, separators[:1])
+		bounds["media"] = fmt.Sprintf("Accept: <=3 ranges over the 60-range alphabet x 3 separators x all ordered lists of <=3 of 11 offers; <=2 ranges over the full 240-range alphabet "+
+			"(6 types x 5 parameter forms x 8 q-forms) x 3 separators x the same lists; exactly 3 ranges over the 240-range alphabet joined by ',' x ordered lists of <=2 offers; "+
+			"exactly 4 ranges over a %d-range alphabet joined by ',' x lists of <=3 offers", len(a4))
 	}
 
 	phase("media")
 
 	// 3. token headers
+	t14 := product(tokens, []string{""}, []string{"", ";q=0.5"})
+	t4 := product(tokens, []string{""}, []string{"", ";q=0.5", ";q=0", "; q=0.5"})
 	if quick {
-		enumerate(r, "tokens", famL, tokAlpha, 1, 3, separators)
+		enumerate(r, "tokens", famL, tokAlpha, 1, 2, separators)
+		enumerate(r, "tokens", famL2, tokAlpha, 3, 3, separators[:1])
+		enumerate(r, "tokens_sep", famL2, t14, 3, 3, otherSeps)
 		enumerate(r, "tokens", famC2, tokAlpha, 1, 2, separators)
 		enumerate(r, "tokens", famE2, tokAlpha, 1, 2, separators)
-		bounds["tokens"] = "Accept-Language: <=3 ranges over 7 tokens x 7 q-forms x 3 separators x ordered lists of <=3 of 7 tokens; Accept-Charset/-Encoding: <=2 ranges x lists of <=2"
+		bounds["tokens"] = "Accept-Language: <=2 ranges over 7 tokens x 7 q-forms x 3 separators x ordered lists of <=3 of 7 tokens, 3 ranges joined by ',' (and over 7 tokens x 2 q-forms joined by ', ' and ' , ') x lists of <=2; Accept-Charset/-Encoding: <=2 ranges x 3 separators x lists of <=2"
 	} else {
 		for _, f := range []*family{famL, famC, famE} {
 			enumerate(r, "tokens", f, tokAlpha, 1, 3, separators)
 		}
-		t4 := product(tokens, []string{""}, []string{"", ";q=0.5", ";q=0", "; q=0.5"})
-		enumerate(r, "tokens4", famL, t4, 4, 4, []string{","})
+		enumerate(r, "tokens4", famL, t4, 4, 4, separators[:1])
 		bounds["tokens"] = "Accept-Language/-Charset/-Encoding: <=3 ranges over 7 tokens x 7 q-forms x 3 separators x ordered lists of <=3 of 7 tokens; Accept-Language additionally exactly 4 ranges over 7 tokens x 4 q-forms"
 	}
 
@@ -1260,6 +1466,7 @@ func main() {
 		core.Fatal("C09 pool worker failed: %v", crashed)
 	}
 	phase("pool-join")
+	stopProfile()
 
 	var vary int64
 	for _, w := range workers.free {
